@@ -57,6 +57,10 @@ Fixpoint sx (fuel : nat) (e : expr) (m : mstate) {struct fuel} : sres :=
         pushr m2 (match op with
                   | TBang => Ok (vm_bang v) | TMinus => vm_minus v | TSqrt => vm_sqrt v | _ => Err EInternal
                   end)))
+  | EInfix TPeriod l r =>
+      (* `a.b` is `a["b"]`: what follows the dot names the member, it is not evaluated *)
+      then_ (sx f l m) (fun m1 => pop1s m1 (fun a m2 =>
+        pushr m2 (match estr 64 r with Some name => spec_index o a (VStr name) | None => Err ENeedOracle end)))
   | EInfix op l r =>
       then_ (sx f l m) (fun m1 => then_ (sx f r m1) (fun m2 =>
         match mutator_op op with
@@ -76,7 +80,6 @@ Fixpoint sx (fuel : nat) (e : expr) (m : mstate) {struct fuel} : sres :=
               pushr m3 (match binop_of_tok op with
                         | Some bop => spec_binop o bop a b
                         | None => match op with
-                                  | TPeriod => spec_index o a b
                                   | TDotDot => vm_range a b
                                   | _ => Err EInternal
                                   end
